@@ -1336,6 +1336,99 @@ W_SIMEDIT = {"kind": "simedit", "n": 2, "ncb": 0, "mode": "sv", "init": 0,
                        {"i": 0, "how": "arg", "arg": 2.1}]}
 
 
+# ------------------------------------------------------------------------------------------
+# every returned state object is kept and compared again at the END of the history
+
+def rand_trajectory(rng):
+    w = rand_lib_circuit(rng)
+    gates = [g for g in w["gates"] if "M" not in g and g.get("cc") is None and g["name"] not in ("UROT", "UCROT")]
+    if not gates:
+        gates = [{"name": "SNOT", "targets": [0], "controls": None, "arg": None, "cc": None, "ccv": None}]
+    # GLOBALPHASE gates in the middle of the circuit (as resolve_gates / transpile produce them)
+    for _ in range(rng.randint(0, 2)):
+        gates.insert(rng.randint(1, len(gates)), {"name": "GLOBALPHASE", "targets": None, "controls": None,
+                                                  "arg": rng.choice([0.3, 1.0, -0.7]), "cc": None, "ccv": None})
+    resolve = rng.choice([None, None, "default", ["CNOT", "RX", "RY", "RZ"]])
+    return {"kind": "trajectory", "n": w["n"], "ncb": 0, "gates": gates, "resolve": resolve,
+            "mode": "sv" if rng.random() < 0.75 else "dm", "init": rng.randrange(2 ** w["n"]),
+            "reads": [rng.random() < 0.6 for _ in range(40)], "unitary_input": rng.random() < 0.15}
+
+
+def oracle_trajectory(w):
+    """Stepping API on one simulator: every Qobj read from `sim.state`, every result of run / run_statistics and every
+    propagator list / unitary returned along the way is KEPT, together with a deep snapshot taken when it was returned;
+    at the end of the history every kept object must still equal its snapshot (a later step, run or query must not
+    rewrite what was handed out), and the states read must equal those of a second simulator that is never read."""
+    import qutip
+    from qutip_qip.circuit import CircuitSimulator
+    try:
+        qc = build_lib_circuit(w)
+    except Exception as e:
+        return False, "not constructible: " + type(e).__name__
+    if w.get("resolve"):
+        try:
+            qc = qc.resolve_gates() if w["resolve"] == "default" else qc.resolve_gates(list(w["resolve"]))
+        except Exception:
+            pass                 # a gate the decomposition does not know: the circuit is stepped as it is
+    mode = {"sv": "state_vector_simulator", "dm": "density_matrix_simulator"}[w["mode"]]
+    n = w["n"]
+    bits = [(w["init"] >> (n - 1 - q)) & 1 for q in range(n)]
+    init = qutip.basis([2] * n, bits)
+    if w["mode"] == "dm":
+        init = qutip.ket2dm(init)
+    elif w.get("unitary_input"):
+        init = qutip.qeye([2] * n)
+    kept = []            # (what, object, snapshot when returned)
+
+    def keep(what, obj):
+        kept.append((what, obj, snap(obj)))
+
+    sim, twin = CircuitSimulator(qc, mode=mode), CircuitSimulator(qc, mode=mode)
+    b_init = snap(init)
+    try:
+        sim.initialize(init)
+        twin.initialize(init)
+        for k in range(len(qc.gates)):
+            sim.step()
+            twin.step()
+            if w["reads"][k % len(w["reads"])]:
+                s_ = sim.state
+                keep(f"sim.state read after step {k} ({qc.gates[k].name})", s_)
+                t_ = twin.state
+                if not np.allclose(np.asarray(s_.full()), np.asarray(t_.full()), atol=1e-10):
+                    return True, f"step {k}: the simulator that is read and its unread twin hold different states"
+        keep("sim.state read after the last step", sim.state)
+        r1 = sim.run(init)
+        keep("the CircuitResult of run", r1)
+        keep("the final state returned by run", r1.get_final_states(0))
+        r2 = sim.run_statistics(init)
+        keep("the CircuitResult of run_statistics", r2)
+        # the simulator is used again: nothing handed out before may change
+        sim.initialize(init)
+        for k in range(len(qc.gates)):
+            sim.step()
+        sim.run(init)
+        if not w.get("unitary_input"):
+            keep("the list returned by propagators()", qc.propagators(ignore_measurement=True))
+            keep("the unitary returned by compute_unitary()", qc.compute_unitary())
+            qc.propagators(ignore_measurement=True)
+            qc.compute_unitary()
+    except Exception as e:
+        return False, "history not evaluable: " + type(e).__name__ + ": " + str(e)[:80]
+    if snap(init) != b_init:
+        return True, "the initial state passed in was changed"
+    for what, obj, s0 in kept:
+        if not close(snap(obj), s0, 0.0):
+            return True, (f"{what} was changed by LATER calls: at the end of the history the object no longer equals the "
+                          f"deep snapshot taken when it was returned")
+    return False, f"{len(kept)} returned objects kept: all unchanged at the end of the history"
+
+
+W_TRAJ = {"kind": "trajectory", "n": 2, "ncb": 0, "mode": "sv", "init": 0, "resolve": "default", "reads": [True],
+          "gates": [{"name": "SNOT", "targets": [0], "controls": None, "arg": None, "cc": None, "ccv": None},
+                    {"name": "SNOT", "targets": [1], "controls": None, "arg": None, "cc": None, "ccv": None}]}
+
+
 W_SIMEDIT_MEAS = {"kind": "simedit", "n": 1, "ncb": 1, "mode": "sv", "init": 0, "step": True,
                   "gates": [{"name": "SNOT", "targets": [0], "controls": None, "arg": None, "cc": None, "ccv": None}],
                   "edits": [{"how": "addM", "M": 0, "store": 0, "index": None},
@@ -1461,6 +1554,8 @@ def oracle(w):
         return PN.oracle_pnoise(w)
     if w["kind"] == "simedit":
         return oracle_simedit(w)
+    if w["kind"] == "trajectory":
+        return oracle_trajectory(w)
     if w["kind"] == "runargs":
         return AR.oracle_runargs(w)
     if w["kind"] == "plotlabels":
@@ -2014,7 +2109,7 @@ class C16(PropertyCheck):
     def _sweep(self, ctx, budget_s, count):
         rng = ctx.rng
         t0 = time.time()
-        fixed = (W_ALIAS, W_PHASE, W_PHASE_FREE, W_PHASE_FREE_CQED, W_GETTER, W_DRAW, W_QASM, W_SHAPE, W_SHARE_REV, W_SHARE_CHAIN, W_NOISE, W_SIMEDIT, W_SIMEDIT_MEAS) + \
+        fixed = (W_ALIAS, W_PHASE, W_PHASE_FREE, W_PHASE_FREE_CQED, W_GETTER, W_DRAW, W_QASM, W_SHAPE, W_SHARE_REV, W_SHARE_CHAIN, W_NOISE, W_SIMEDIT, W_SIMEDIT_MEAS, W_TRAJ) + \
             tuple(PN.FIXED)
         pend = pending()
         if "C16-6" not in pend:
@@ -2070,6 +2165,17 @@ class C16(PropertyCheck):
             if r < 0.5:
                 w = rand_relax(rng)
                 f, d = oracle(w)
+                if f:
+                    yield w, d
+                continue
+            if 0.78 <= r < 0.86:
+                w = rand_trajectory(rng)
+                try:
+                    f, d = oracle(w)
+                except TreeChanged:
+                    raise
+                except Exception as e:
+                    f, d = False, "not applicable: " + repr(e)[:100]
                 if f:
                     yield w, d
                 continue
